@@ -969,9 +969,9 @@ package websocket
 //@ assert at call:netDial#1[C18.addr]: arg2 == hp && streq(arg1, "tcp")
 //@ assert at call:Write#1[C14.reqhost]: true
 //@ assert at call:ReadResponse#1[C17.reader]: arg0 == conn.br && arg1 == req
-//@ assert at return#13[C14.bad]: conn == nil && err == ErrBadHandshake && resp == rresp && resp != nil
-//@ assert at return#16[C14.accept]: err == nil && conn != nil && rerr == nil && resp == rresp && resp.StatusCode == 101 && okUpg && okConn && streq(acc, ak)
-//@ assert at return#16[C15.client]: iff(conn.newCompressionWriter != nil, conn.newDecompressionReader != nil) && !conn.isServer
+//@ assert at return#14[C14.bad]: conn == nil && err == ErrBadHandshake && resp == rresp && resp != nil
+//@ assert at return#17[C14.accept]: err == nil && conn != nil && rerr == nil && resp == rresp && resp.StatusCode == 101 && okUpg && okConn && streq(acc, ak)
+//@ assert at return#17[C15.client]: iff(conn.newCompressionWriter != nil, conn.newDecompressionReader != nil) && !conn.isServer
 //@ assert at return#9[C16.cleanup]: nc.g_closed && conn == nil
 //@ assert at return#10[C16.cleanup]: nc.g_closed && conn == nil
 //@ assert at return#11[C16.cleanup]: nc.g_closed && conn == nil
@@ -979,7 +979,8 @@ package websocket
 //@ assert at return#13[C16.cleanup]: nc.g_closed && conn == nil
 //@ assert at return#14[C16.cleanup]: nc.g_closed && conn == nil
 //@ assert at return#15[C16.cleanup]: nc.g_closed && conn == nil
-//@ assert at return#16[C16.open]: !nc.g_closed && !conn.conn.g_wdl && !conn.conn.g_rdl
+//@ assert at return#16[C16.cleanup]: nc.g_closed && conn == nil
+//@ assert at return#17[C16.open]: !nc.g_closed && !conn.conn.g_wdl && !conn.conn.g_rdl
 //@ loop 2 invariant len(req.Header["Sec-WebSocket-Key"]) == 1 && req.Header["Sec-WebSocket-Key"][0] == ck
 //@ loop 2 invariant len(req.Header["Upgrade"]) == 1 && streq(req.Header["Upgrade"][0], "websocket") && len(req.Header["Connection"]) == 1 && streq(req.Header["Connection"][0], "Upgrade")
 //@ loop 2 invariant len(req.Header["Sec-WebSocket-Version"]) == 1 && streq(req.Header["Sec-WebSocket-Version"][0], "13") && streq(req.Method, "GET") && req.URL == u && req.Header != nil
